@@ -34,7 +34,10 @@ RULE = ("crypt: wallets of 1..3 accounts out of {seed, xprv-only, xpub-only (wat
         "passwords from 8 alphabets (ASCII, any unicode, precomposed, combining marks, astral, whitespace/NUL, long up "
         "to 400 quick / 2000 thorough), 2..3 wrong passwords per case out of {unrelated, prefix, empty, case, NFC/NFD, "
         "appended, prepended, doubled, stripped, other_password}; history = the canonical sequence encrypt, save, reload, "
-        "unlock(wrong), unlock(right), lock, unlock(wrong), unlock(right), decrypt, reload, or 4..14 random operations; "
+        "unlock(wrong), unlock(right), lock, unlock(wrong), unlock(right), decrypt, reload, or 4..14 random operations "
+        "(one of them 'unlock_race': a wrong-password unlock call runs while the right-password call is parked in its j-th "
+        "database look-up; the right call must still succeed and restore everything, the wrong call must fail while any "
+        "account with a secret is still locked); "
         "non-trivial = at least one unlock with the right AND one with a wrong password were executed against a locked "
         "wallet that holds a secret. pack: same wallets, non-trivial = unicode password or >= 2 accounts. crash: "
         "(old, new) wallet files 0.2..150 kB (synthetic dicts through WalletStorage.write, or a real - possibly "
@@ -453,6 +456,60 @@ def _crypt(case, world, out):
             out.check(wallet.encryption_password == pw, "password-not-kept-after-unlock", tag_op)
             if any_secret:
                 did["right"] += 1
+        elif name == "unlock_race":
+            if not st_["locked"]:
+                out.label("skip:unlock_race")
+                continue
+            pw = st_["lock_pw"]
+            w = wrongs[op[2] % len(wrongs)]
+            if w["pw"] == pw:
+                out.label("skip:unlock_wrong_is_right")
+                continue
+            db = world.ledger.db
+            orig_lookup = db.is_channel_key_used
+            race = {"n": 0, "at": op[1] % max(1, sum(has_secret)), "ran": False, "r": None, "mid": None}
+
+            async def hooked(*a, _orig=orig_lookup, _race=race, _w=w, **k):
+                if _race["n"] == _race["at"] and not _race["ran"]:
+                    _race["ran"] = True
+                    _race["mid"] = [acc.encrypted for acc in wallet.accounts]
+                    try:
+                        _race["r"] = await wallet.unlock(_w["pw"])
+                    except Exception as e:  # noqa: refusing by raising is allowed
+                        _race["r"] = "raised %s" % type(e).__name__
+                _race["n"] += 1
+                return await _orig(*a, **k)
+            db.is_channel_key_used = hooked
+            try:
+                r = aio.run(wallet.unlock(pw))
+            except Exception as e:  # noqa
+                out.violate("right-password-raises:%s" % type(e).__name__, "%s: %r" % (tag_op, e))
+                return
+            finally:
+                del db.is_channel_key_used
+            if race["ran"]:
+                out.label("race_wrong_unlock_ran", "race_partly_unlocked" if any(race["mid"]) and not all(race["mid"])
+                          else "race_all_open" if not any(race["mid"]) else "race_none_open")
+                secret_still_locked = any(e and hs for e, hs in zip(race["mid"], has_secret))
+                if race["r"] is True and not secret_still_locked:
+                    # every account with a secret was already open when the second call arrived: it is a call on a wallet
+                    # that has nothing left to unlock (like unlock() on an unlocked wallet), which the statement does not cover
+                    out.label("race_wrong_call_found_nothing_locked")
+                elif race["r"] is True:
+                    out.violate("wrong-password-accepted:concurrent-with-right-unlock",
+                                "%s kind=%s: the wrong-password call returned True" % (tag_op, w["kind"]))
+                    return
+            if r is not True:
+                out.violate("right-password-refused:wrong-attempt-meanwhile" if race["ran"] else "right-password-refused:race-op",
+                            "%s: unlock(right) -> %r, wrong attempt (%s) ran at look-up %d -> %r" % (
+                                tag_op, r, w["kind"], race["at"], race["r"]))
+                return
+            st_.update(locked=False, mem_pw=pw)
+            out.check(wallet.encryption_password == pw, "password-not-kept-after-unlock", tag_op)
+            if any_secret:
+                did["right"] += 1
+                if race["ran"]:
+                    did["wrong"] += 1
         elif name == "unlock_wrong":
             if not st_["locked"]:
                 out.label("skip:unlock_wrong")
@@ -580,7 +637,10 @@ def accounts_strategy():
 CANONICAL = [["encrypt", 0], ["save"], ["reload"], ["unlock_wrong", 0], ["unlock_right"], ["lock"], ["unlock_wrong", 1],
              ["unlock_right"], ["decrypt"], ["reload"]]
 OPS = [["save"], ["reload"], ["reload"], ["unlock_right"], ["unlock_wrong", 0], ["unlock_wrong", 1], ["unlock_wrong", 2],
-       ["lock"], ["lock"], ["decrypt"], ["encrypt", 0], ["encrypt", 1]]
+       ["lock"], ["lock"], ["decrypt"], ["encrypt", 0], ["encrypt", 1],
+       # a second wallet_unlock call with a wrong password arrives while the first (right password) is parked in its
+       # j-th database look-up (ensure_cache_primed after each decrypted account)
+       ["unlock_race", 0, 0], ["unlock_race", 1, 1], ["unlock_race", 2, 0], ["unlock_race", 3, 2]]
 
 
 @st.composite
@@ -1158,7 +1218,7 @@ PARTS = [
          essential=WRONG_KINDS + ("acct_seed", "acct_xprv", "acct_xpub", "gen_single", "gen_hd", "with_channel_keys",
                                   "pw_unicode", "pw_astral", "pw_combining", "pw_long", "reload_locked",
                                   "disk_checked_encrypted", "unlocked_with_right_password", "refused_wrong_password",
-                                  "seed_wordlist")),
+                                  "seed_wordlist", "race_wrong_unlock_ran", "race_partly_unlocked")),
     Part("pack", pack_case, run_pack, 60, 800, quick_shards=2, thorough_shards=16,
          essential=("acct_seed", "acct_xprv", "acct_xpub", "pw_unicode", "unpack_wrong:InvalidPasswordError")),
     Part("crash", crash_case, run_crash, 150, 2500, quick_shards=2, thorough_shards=16,
